@@ -50,23 +50,38 @@ def _setstate_tuple(self, state):
     LOG.append(('set', self.__dict__.get('uid')))
 
 
+def _getstate_falsy(self, remote=False):
+    LOG.append(('get', self.__dict__.get('uid'), bool(remote)))
+    if remote:
+        return {}          # nothing is transmitted, __setstate__ rebuilds everything on the other side
+    return dict(self.__dict__)
+
+
+def _setstate_falsy(self, state):
+    self.__dict__.update(state)
+    if not state:
+        self.__dict__['_rebuilt'] = True
+    LOG.append(('set', self.__dict__.get('uid')))
+
+
 def build_optin_classes():
     """Created lazily (needs pyworkers). Returned dict variant -> class; classes live in this module's globals."""
     from pyworkers.remote_pickle import SupportRemoteGetState
     g = globals()
     if 'RBase' in g:
-        return {k: g[k] for k in ('RBase', 'RDuck', 'RNoSet', 'RTuple')}
+        return {k: g[k] for k in VARIANTS}
+    RFalsy = type('RFalsy', (SupportRemoteGetState,), {'__getstate__': _getstate_falsy, '__setstate__': _setstate_falsy, '__module__': __name__})
     RBase = type('RBase', (SupportRemoteGetState,), {'__getstate__': _mk_getstate('dict'), '__setstate__': _setstate_dict, '__module__': __name__})
     RDuck = type('RDuck', (object,), {'__getstate__': _mk_getstate('dict'), '__setstate__': _setstate_dict, '__module__': __name__})
     RNoSet = type('RNoSet', (SupportRemoteGetState,), {'__getstate__': _mk_getstate('dict'), '__module__': __name__})
     RTuple = type('RTuple', (SupportRemoteGetState,), {'__getstate__': _mk_getstate('tuple'), '__setstate__': _setstate_tuple, '__module__': __name__})
-    for c in (RBase, RDuck, RNoSet, RTuple):
+    for c in (RBase, RDuck, RNoSet, RTuple, RFalsy):
         c.__qualname__ = c.__name__
         g[c.__name__] = c
-    return {k: g[k] for k in ('RBase', 'RDuck', 'RNoSet', 'RTuple')}
+    return {k: g[k] for k in VARIANTS}
 
 
-VARIANTS = ('RBase', 'RDuck', 'RNoSet', 'RTuple')
+VARIANTS = ('RBase', 'RDuck', 'RNoSet', 'RTuple', 'RFalsy')
 
 
 # ---------------------------------------------------------------------------------------------------
@@ -339,6 +354,8 @@ def features(spec):
                 f.add('tuple-state')
             if s[1] == 'RDuck':
                 f.add('duck')
+            if s[1] == 'RFalsy':
+                f.add('falsy-state')
             n = direct_optin_children(s)
             if n >= 2:
                 f.add('siblings2+')
